@@ -312,8 +312,11 @@ class Interp:
         ops = {ast.Add: '+', ast.Sub: '-', ast.Mult: '*', ast.Div: '/'}
         if type(n.op) in ops:
             return self.binop(ops[type(n.op)], a, b)
-        if isinstance(n.op, ast.Pow) and isinstance(b, int) and b == 2:
-            return self.binop('*', a, a)
+        if isinstance(n.op, ast.Pow) and isinstance(b, int) and not isinstance(b, bool) and 1 <= b <= 4:
+            r = a
+            for _ in range(b - 1):
+                r = self.binop('*', r, a)
+            return r
         raise TranslateError('operator in ' + t2.src(n))
 
     def ev_BoolOp(self, n, env):
